@@ -5,6 +5,7 @@ delayed actor creation, kills) x tracing options.  Each complaint of the checker
 the previous one) is the recorded finding, every other code is a violation of its own."""
 import json, os, concurrent.futures
 from decimal import Decimal
+import re
 import fw
 
 HOSTS = ["Tremblay", "Jupiter", "Fafard", "Ginette", "Bourassa"]
@@ -49,7 +50,7 @@ def gen_case(rng):
         acts.append({"host": rng.choice(HOSTS), "start": 0 if rng.random() < .6 else round(rng.uniform(0.1, 4), 3),
                      "kill": -1 if rng.random() < .7 else round(rng.uniform(0.2, 6), 3), "ops": ops})
     real = [a for a in acts if isinstance(a, dict)]
-    for a in acts:
+    for a in reversed(acts):      # reversed: the gets end up in the order of the matching (blocking) puts, so the pair never deadlocks
         if isinstance(a, tuple):
             real[a[1]]["ops"].insert(0, a[2])
     # TRACE_host_push/pop_state need the host containers: only legal when some option makes the platform traced
@@ -134,6 +135,12 @@ def run(ctx):
     model_in, meta = [], []
     dist = {"events": 0, "actor_tracing": 0, "uncategorized": 0, "categorized": 0, "with_kill": 0, "complaints": {}}
     for c, tr, line, o in zip(cases, traces, lines, outs):
+        if re.match(r"ERR status=\d+ ok( |$)", o) and os.path.exists(tr):
+            # the simulation ended and the trace was closed ("ok"), then the process died while tearing down (e.g. an actor
+            # killed with pending comms): not a property of the trace; the trace itself is still judged below
+            dist["teardown_crash_after_trace"] = dist.get("teardown_crash_after_trace", 0) + 1
+            ctx.notes.append("process crashed at teardown after writing its trace: %s" % line[:200])
+            o = "ok"
         if o != "ok" or not os.path.exists(tr):
             ctx.fail("driver", "res_c47 '%s' answered '%s'" % (line[:300], o), c)
             continue
